@@ -156,3 +156,8 @@ package bytecode
 //@   requires field: ins != nil && 0 <= offset && (ins.PCRel == 1 || ins.PCRel == 2 || ins.PCRel == 4 || ins.PCRel == 8) && offset + ins.PCRel <= len(block)
 //@   assigns nothing
 //@   ensures value: result == sdisp(block, offset, ins.PCRel)
+
+//@ func MinSize
+//@   props C03
+//@   assigns nothing
+//@   ensures min: result == ite(showSize > len(fixOrigin), len(fixOrigin), showSize)
